@@ -44,7 +44,9 @@ CHECKS["C01"] = dict(
          "model's accumulated ground program G(P,h) — per step the instances of the parts selected by the partCond regenerated from "
          "imain, atoms unknown at grounding time frozen to false, __initial(0), __final(h) the only true external — are exactly the "
          "embeddings of the temporal stable models TSM(P,h) (temporal equilibrium logic on finite traces); partCond_spec, "
-         "ground_call_eq and instance_reading are the supporting lemmas.  Tie: the model's part list/future signatures are compared "
+         "ground_call_eq and instance_reading are the supporting lemmas; directive_spec / directive_parts — visit_Program as regenerated from "
+         "the source maps `final` to `always` with the final flag (under which exactly `__final(t)` is appended, E12), `base` to `initial` "
+         "and keeps every other name, which is the model's rule classification.  Tie: the model's part list/future signatures are compared "
          "with transform's return value and its ground program (solved by clingo) with the real incremental run at every horizon; "
          "search: real runs vs the brute-force TSM enumerator on the head×literal×part grid and random programs with varying layout "
          "(`base`, omitted directives).",
